@@ -74,6 +74,10 @@ type Rule struct {
 
 // Rule declares a rule; floor is the minimum number of instances confirmed by hand.
 func (c *Ctx) Rule(name, engine, doc string, floor int) *Rule {
+	// a rule inherited from another property runs under this property's name (C06/CAP -> C08/CAP)
+	if i := strings.Index(name, "/"); i > 0 && name[:i] != c.Prop && len(name[:i]) == 3 && name[0] == 'C' {
+		name = c.Prop + name[i:]
+	}
 	full := name
 	if st, ok := c.rules[full]; ok {
 		return &Rule{c, st}
